@@ -11,6 +11,7 @@ Open Scope N_scope.
 Theorem C04_server_routes_by_rule :
   forall ipp fs (c : config) p req,
     Blacklist.serve ipp (cf_bl_mode c =? BLOCK_MODE) (cf_bl_list c) p (r_headers req) <> Dropped ->
+    is_upgrade req = false ->
     let host := option_map scalars (hget (HKnown H_Host) (r_headers req)) in
     let uri := scalars (r_uri req) in
     exists choice, Routes (map subapp_of (cf_hosts c)) (subapp_of (cf_default_host c)) host uri choice /\
@@ -33,6 +34,16 @@ Theorem C04_server_wiring_total :
                                  forall h, host = Some h -> wildcard_match (scalars (hc_matches hc)) h = true
       end.
 Proof. exact wiring_total. Qed.
+
+(* WebSocket upgrade requests are dispatched by the same rule over the WebSocket routes (the routes that have a
+   `websocket` target, under their index among all routes of the host): the registered indices always find a route with a
+   target whose pattern matches *)
+Theorem C04_server_ws_wiring_total :
+  forall (c : config) host uri ch,
+    get_handler (map ws_subapp_of (cf_hosts c)) (ws_subapp_of (cf_default_host c)) host uri = Some ch ->
+    exists h j rt t, ws_handler_ids c ch = Some (h, j) /\ get_route c h j = Some rt /\ rt_ws rt = Some t /\
+      wildcard_match (scalars (rt_matches rt)) uri = true.
+Proof. exact ws_wiring_total. Qed.
 
 (* Non-vacuity: a configuration text (forbidden-mode blacklist, one host, directory and file routes) is loaded by the C15
    model and served: an unlisted client gets the file under /www, a traversal attempt 404, the host route its redirect,
@@ -60,4 +71,5 @@ Proof. cbv zeta. repeat split; vm_compute; reflexivity. Qed.
 
 Print Assumptions C04_server_routes_by_rule.
 Print Assumptions C04_server_wiring_total.
+Print Assumptions C04_server_ws_wiring_total.
 Print Assumptions C04_server_example.
